@@ -336,6 +336,28 @@ elif mode == 'extedit':
     sh.ShuntModel.__init__ = orig
     s0 = andes.System(default_config=True, no_undill=True)
     print('EXTEDIT', json.dumps({'args': m.calls.g_args, 'ret': [float(np.ravel(r)[0]) for r in ret]}))
+elif mode == 'instedit':
+    # an equation is edited on a LIVE System (whose code has been loaded and whose checksums may have been computed),
+    # then the documented incremental regeneration is asked for: the functions in use afterwards must be those of the
+    # edited declaration
+    import numpy as np
+    ss = andes.System(default_config=True)
+    m = ss.Shunt
+    m.get_md5()
+    m.v.e_str = '5 * (' + m.v.e_str + ')'
+    ss.prepare(quick=True, incremental=True, nomp=True)
+    args = [1.0 + 0.1 * k for k in range(len(m.calls.g_args))]
+    ret = m.calls.g(*args)
+    print('INSTEDIT', json.dumps({'args': m.calls.g_args, 'ret': [float(np.ravel(r)[0]) for r in ret]}))
+elif mode == 'fresh':
+    # a later session with the pristine model: whatever an earlier session left on disk, the functions loaded now must be
+    # those of the pristine declaration
+    import numpy as np
+    ss = andes.System(default_config=True)
+    m = ss.Shunt
+    args = [1.0 + 0.1 * k for k in range(len(m.calls.g_args))]
+    ret = m.calls.g(*args)
+    print('FRESH', json.dumps({'args': m.calls.g_args, 'ret': [float(np.ravel(r)[0]) for r in ret]}))
 '''
 
 
@@ -412,6 +434,24 @@ def regen_stream(ctx):
                             '%r, the edited declaration gives %r: code that no longer matches the model was used silently' % (got, exp), {})
         else:
             ctx.count('ext_edit_noticed')
+    # (d) an equation edited on a live System + incremental regeneration, then (e) a fresh session with the pristine model
+    for mode, tag, fac, key in (('instedit', 'INSTEDIT', 5, 'stale-code-used-after-instance-edit'),
+                                ('fresh', 'FRESH', 1, 'stale-code-loaded-by-later-session')):
+        p = subprocess.run([sys.executable, '-c', REGEN, mode], env=env, cwd=home2, stdout=subprocess.PIPE, stderr=subprocess.PIPE, text=True, timeout=1800)
+        ctx.evaluations += 1
+        line = [l for l in p.stdout.split('\n') if l.startswith(tag)]
+        if p.returncode != 0 or not line:
+            ctx.oracle_fail('stale-check-raises', '%s: regenerating / loading after an edit on a live System raised: %s' % (mode, p.stderr[-300:]), {})
+            continue
+        r = json.loads(line[0][len(tag) + 1:])
+        a = dict(zip(r['args'], [1.0 + 0.1 * k for k in range(len(r['args']))]))
+        exp = fac * (-a['u'] * a['v'] ** 2 * a['b'])
+        got = r['ret'][1]
+        if abs(got - exp) > 1e-9 * (1 + abs(exp)):
+            ctx.oracle_fail(key, '%s: the loaded Shunt g_update returns %r for the reactive injection, the declaration in force gives %r: code that '
+                            'does not match the model is used silently' % (mode, got, exp), {'mode': mode})
+        else:
+            ctx.count('instance_edit_regenerated' if mode == 'instedit' else 'fresh_session_loads_pristine_code')
     shutil.rmtree(home2, ignore_errors=True)
 
 
